@@ -6,3 +6,10 @@ import AllfedModel.Props.C06
 import AllfedModel.Props.C07
 import AllfedModel.Props.C15
 import AllfedModel.Props.C17
+import AllfedModel.Props.C01
+import AllfedModel.Props.C02
+import AllfedModel.Props.C03
+import AllfedModel.Props.C04
+import AllfedModel.Props.C05
+import AllfedModel.Props.C12
+import AllfedModel.Props.C14
